@@ -780,6 +780,26 @@ impl<T: Transport + 'static> SyncEngine<T> {
                     SyncAction::Create => {
                         if let Some(source) = &task.source {
                             match transferrer.create(source, &task.dest_path).await {
+                                // A symlink entry that the link mode left out (skip mode; follow mode
+                                // with a target that does not resolve or is a directory) put nothing in
+                                // the destination: it is a skipped entry, not a created or updated one
+                                Ok(None)
+                                    if source.is_symlink
+                                        && !matches!(symlink_mode, SymlinkMode::Preserve) =>
+                                {
+                                    {
+                                        let mut stats = stats.lock().unwrap();
+                                        stats.files_skipped += 1;
+                                    }
+                                    if json {
+                                        SyncEvent::Skip {
+                                            path: task.dest_path.clone(),
+                                            reason: "symlink_not_copied".to_string(),
+                                        }
+                                        .emit();
+                                    }
+                                    Ok(())
+                                }
                                 Ok(transfer_result) => {
                                     let bytes_written = if let Some(ref result) = transfer_result {
                                         result.bytes_written
@@ -910,6 +930,25 @@ impl<T: Transport + 'static> SyncEngine<T> {
                     SyncAction::Update => {
                         if let Some(source) = &task.source {
                             match transferrer.update(source, &task.dest_path).await {
+                                // In skip mode a symlink entry is left alone: it is a skipped entry,
+                                // not an updated one
+                                Ok(None)
+                                    if source.is_symlink
+                                        && matches!(symlink_mode, SymlinkMode::Skip) =>
+                                {
+                                    {
+                                        let mut stats = stats.lock().unwrap();
+                                        stats.files_skipped += 1;
+                                    }
+                                    if json {
+                                        SyncEvent::Skip {
+                                            path: task.dest_path.clone(),
+                                            reason: "symlink_not_copied".to_string(),
+                                        }
+                                        .emit();
+                                    }
+                                    Ok(())
+                                }
                                 Ok(transfer_result) => {
                                     let bytes_written = if let Some(ref result) = transfer_result {
                                         result.bytes_written
